@@ -927,6 +927,65 @@ func c18Bounce(c *Check) {
 		return true
 	})
 	c.Hold("R10", "emitDSN:abort-exists", r.FI.Decl.Pos(), aborts >= 1, "a bounce transaction that fails after Start is never aborted (the downstream delivery stays open)")
+	// Commit ends the delivery whatever its outcome (the pipeline's Commit commits or aborts every target delivery; the
+	// SMTP session does not abort after a Commit attempt either): the error of Commit is not the variable whose non-nil
+	// value makes the deferred clean-up call Abort – a second close of a target.remote delivery returns its connections
+	// to the pool a second time and releases its permits twice
+	{
+		var cleanupVars []types.Object
+		ast.Inspect(r.FI.Decl.Body, func(n ast.Node) bool {
+			d, ok := n.(*ast.DeferStmt)
+			if !ok {
+				return true
+			}
+			lit, ok := d.Call.Fun.(*ast.FuncLit)
+			if !ok {
+				return true
+			}
+			hasAbort := false
+			for _, call := range callsIn(lit.Body) {
+				if callOn(info, call, objs) == "Abort" {
+					hasAbort = true
+				}
+			}
+			if !hasAbort {
+				return true
+			}
+			ast.Inspect(lit.Body, func(x ast.Node) bool {
+				if is, isIf := x.(*ast.IfStmt); isIf {
+					ast.Inspect(is.Cond, func(y ast.Node) bool {
+						if id, isID := y.(*ast.Ident); isID {
+							if v, isVar := info.Uses[id].(*types.Var); isVar && isErrorType(v.Type()) && !posIn(lit, v.Pos()) {
+								cleanupVars = append(cleanupVars, v)
+							}
+						}
+						return true
+					})
+				}
+				return true
+			})
+			return true
+		})
+		msgC := ""
+		for _, cp := range commits {
+			var call *ast.CallExpr
+			for _, cc := range callsAt(cp.Node()) {
+				if callOn(info, cc, objs) == "Commit" {
+					call = cc
+				}
+			}
+			eo := errVarAssigned(info, cp.Node(), call)
+			for _, v := range cleanupVars {
+				if eo != nil && eo == v {
+					// unless the variable is cleared again before the function returns on that edge
+					if path, f := r.F.ReachRefined(cp, eo, false, false, r.F.IsExitPt, func(q Pt) bool { return q.Node() != nil && q != cp && assignsObj(info, q.Node(), eo) }); f {
+						msgC = "the error of the bounce's Commit is kept in " + v.Name() + ", the variable the deferred clean-up tests before it calls Abort (" + r.F.Describe(path) + "): a delivery whose Commit failed is aborted as well – the pipeline's Commit has already committed or aborted every target delivery, a second close of a target.remote delivery returns its connections to the pool twice (two later deliveries share one SMTP session) and gives its permits back twice"
+					}
+				}
+			}
+		}
+		c.Hold("R10", "emitDSN:no-abort-after-commit", r.FI.Decl.Pos(), msgC == "", msgC)
+	}
 	// the deferred clean-up aborts exactly when the shared error variable is set: never after a successful Commit,
 	// always after a failed stage
 	ast.Inspect(r.FI.Decl.Body, func(n ast.Node) bool {
